@@ -122,7 +122,7 @@ def reqstop_protocol(run, F):
         run.inst(site(f, G.line(x)), 'prevPtr_ = nullptr dominates execute()', key='unlink')
         if not unl or not G.dominated_by_any(x, set(unl)):
             run.violation(f['qname'], 'unlink-before-execute', loc(x), 'callback is executed without first being marked dequeued (prevPtr_ = nullptr): a concurrent deregistration would unlink it from the list and return while it runs')
-        rdc = [n for n, e in G.ev.items() if e.get('k') == 'assign' and last_field(e['lhs']) == 'removedDuringCallback_' and (e.get('rhs') or {}).get('p') not in ('#null', None)]
+        rdc = [n for n, e in G.ev.items() if e.get('k') == 'assign' and last_field(e['lhs']) == 'removedDuringCallback_' and expr_paths(e.get('rhs')) and expr_paths(e.get('rhs')) != ['#null']]
         run.inst(site(f, G.line(x)), 'removedDuringCallback_ armed before execute()', key='rdc')
         if not rdc or not G.dominated_by_any(x, set(rdc)):
             run.violation(f['qname'], 'rdc-before-execute', loc(x), 'callback executes without removedDuringCallback_ pointing at the notifier\'s flag: deregistering from inside the callback is not detected')
